@@ -42,7 +42,7 @@ TF = 'chainables.tree_fns'
 
 
 def run(ctx: Ctx):
-  for r in (r1, r2, r3, r4, r5, r6, r7, r8):
+  for r in (r9, r1, r2, r3, r4, r5, r6, r7, r8):
     ctx.guard(r)
 
 
@@ -77,6 +77,33 @@ def r8(ctx: Ctx):
            ' the re-batching code takes the first / last element of its input stream (to count the columns) it passes a'
            ' default and handles it; a default-less more_itertools.first() raises ValueError for the empty stream')
   ends_have_default(ctx, rule, (IU,), 2)
+
+
+def r9(ctx: Ctx):
+  rule = 'R-C19-9'
+  ctx.rule(rule, '"emits, column by column, exactly the concatenation of the input rows": nothing in the re-batching code can'
+           ' discard rows silently — the containers that hold buffered chunks are unbounded (a list, a deque without maxlen).'
+           ' A bounded deque drops its oldest chunk when a new one arrives: with zero-row input batches more chunks than'
+           ' the bound pile up before the target is reached, the oldest pending rows vanish while the row counter still'
+           ' says the target was reached')
+  fi = ctx.repo.func(IU, 'rebatched_args')
+  n = 0
+  bad = None
+  for c in ast.walk(fi.node):
+    if isinstance(c, ast.Call) and unparse(c.func).split('.')[-1] == 'deque':
+      n += 1
+      if kwarg(c, 'maxlen') is not None or len(c.args) >= 2:
+        bad = bad or c
+  n += 1
+  what = 'rebatched_args: buffered chunks are held in unbounded containers'
+  if bad is None:
+    ctx.ok(rule, fi, what, fi.node)
+  else:
+    ctx.fail(rule, fi, what,
+             f'`{unparse(bad)[:60]}` bounds a container of buffered chunks: when more chunks than the bound are pending (zero-row'
+             ' batches count as chunks) the oldest are discarded silently — rows are lost and a short batch is flushed'
+             ' mid-stream', node=bad)
+  ctx.floor(rule, 1, n)
 
 
 def _names(fi):
@@ -581,6 +608,9 @@ from mlmverif.selfcheck import B, OK  # noqa: E402
 
 _F = 'utils/iter_utils.py'
 VARIANTS = [
+    B('column-buffers-bounded', 'utils/iter_utils.py',
+      '  column_buffer = [[] for _ in range(num_columns)]\n  batch_sizes = np.zeros(num_columns, dtype=int)\n  exhausted = False',
+      '  column_buffer = [collections.deque(maxlen=batch_size) for _ in range(num_columns)]\n  batch_sizes = np.zeros(num_columns, dtype=int)\n  exhausted = False', 'R-C19-9'),
     B('revert-column-count-from-first-without-default', 'utils/iter_utils.py',
       "    if (first_batch := mit.first(tuples, None)) is None:\n      return\n", "    first_batch = mit.first(tuples)\n", 'R-C19-8'),
     B('length-test-only-at-flush', 'utils/iter_utils.py',
